@@ -650,6 +650,9 @@ fn main() {
             }
             if u == 1 {
                 iterator_histories(acc);
+                // one run past 2^16 items in each direction (a step counter kept in a narrow integer)
+                iterators(acc, days_from_civil(2023, 1, 1), 70_000, 70_000);
+                iterators(acc, days_from_civil(-1, 12, 31), 70_000, 70_000);
             }
             date_steps(acc, z, &durs, &counts);
             iterators(acc, z, if MAX_DAY - z < 2000 { usize::MAX } else { 800 }, if z - MIN_DAY < 2000 { usize::MAX } else { 800 });
